@@ -55,6 +55,16 @@ fn offset(r: &mut Rng) -> i32 {
     }
 }
 
+fn day_spec_any(r: &mut Rng) -> DaySpec {
+    // out-of-range fields included (must be refused, never panic)
+    match r.below(4) {
+        0 => DaySpec::M(r.below(15) as u8, r.below(8) as u8, r.below(9) as u8),
+        1 => DaySpec::M(1 + r.below(12) as u8, [0u8, 6, 1, 5][r.usize(4)], [0u8, 7, 6][r.usize(3)]),
+        2 => DaySpec::J1([0u16, 366, 365, 1, 999][r.usize(5)]),
+        _ => DaySpec::J0([366u16, 365, 0, 999][r.usize(4)]),
+    }
+}
+
 fn day_spec(r: &mut Rng) -> DaySpec {
     match r.below(10) {
         0..=5 => DaySpec::M(1 + r.below(12) as u8, 1 + r.below(5) as u8, r.below(7) as u8),
@@ -107,7 +117,18 @@ pub fn gen_rule(r: &mut Rng, extended: bool, want_valid: bool, tag: Option<u32>)
                 2 => std_off.saturating_add(7200),
                 _ => std_off.saturating_add(3600),
             };
-            RuleSpec::Alt { std_off, std_desig: desig(r, tag), dst_off, dst_desig: desig(r, tag.map(|t| t + 1000)), start: day_spec(r), start_time: rule_time(r, extended), end: day_spec(r), end_time: rule_time(r, extended) }
+            let (start, end) = if !want_valid && r.chance(1, 2) {
+                // same month, neighbouring weeks / week days, possibly out of range
+                let a = day_spec_any(r);
+                let b = match (&a, r.below(3)) {
+                    (DaySpec::M(m, _, d), 0) => DaySpec::M(*m, r.below(7) as u8, d.wrapping_add(1) % 8),
+                    _ => day_spec_any(r),
+                };
+                (a, b)
+            } else {
+                (day_spec(r), day_spec(r))
+            };
+            RuleSpec::Alt { std_off, std_desig: desig(r, tag), dst_off, dst_desig: desig(r, tag.map(|t| t + 1000)), start, start_time: rule_time(r, extended), end, end_time: rule_time(r, extended) }
         };
         if !spec.printable() {
             continue;
@@ -120,7 +141,9 @@ pub fn gen_rule(r: &mut Rng, extended: bool, want_valid: bool, tag: Option<u32>)
 }
 
 fn time_mixture(r: &mut Rng) -> i64 {
-    match r.below(12) {
+    match r.below(14) {
+        12 => [i64::MAX, i64::MAX - 1, i64::MAX - 2, i64::MAX - 27][r.usize(4)],
+        13 => [i64::MIN, i64::MIN + 1, i64::MIN + 2, i64::MIN + 27][r.usize(4)],
         0 => r.range(-1000, 1000),
         1 => (1i64 << 31) + r.range(-1000, 1000),
         2 => -(1i64 << 31) + r.range(-1000, 1000),
@@ -230,7 +253,7 @@ pub fn gen_zone(r: &mut Rng, o: ZoneOpts) -> ZoneSpec {
         let mut t = if o.i32_times { r.range(0, 500_000_000) } else { r.range(0, 2_000_000_000) };
         let mut c: i32 = 0;
         for _ in 0..n {
-            c += if r.chance(1, 6) { -1 } else { 1 };
+            c += if r.chance(1, 3) { -1 } else { 1 };
             if leaps.is_empty() && c.abs() != 1 {
                 c = 1;
             }
@@ -259,6 +282,17 @@ pub fn gen_zone(r: &mut Rng, o: ZoneOpts) -> ZoneSpec {
             if lt > base {
                 trans.push((lt + r.range(-1, 1), r.usize(ntypes) as u8));
             }
+        }
+    }
+
+    // extreme last transition next to a leap table (the leap conversion of the last transition is
+    // what the constructor evaluates)
+    if !leaps.is_empty() && !o.i32_times && r.chance(1, 6) {
+        let t = [i64::MAX, i64::MAX - 1, i64::MAX - 2, i64::MIN + 1, i64::MAX - 30][r.usize(5)];
+        if trans.last().map_or(true, |(l, _)| *l < t) {
+            trans.push((t, r.usize(ntypes) as u8));
+        } else if trans.first().map_or(false, |(f, _)| *f > t) {
+            trans.insert(0, (t, r.usize(ntypes) as u8));
         }
     }
 
@@ -323,7 +357,8 @@ pub fn gen_zone(r: &mut Rng, o: ZoneOpts) -> ZoneSpec {
 
 /// Local-time fields of instant `t` shifted by `off` seconds (generator-side helper).
 pub fn fields_at(t: i64, off: i64, ns: u32) -> Option<Fields> {
-    let u = UtcDateTime::from_timespec(t.checked_add(off)?, ns).ok()?;
+    let tt = t.checked_add(off)?;
+    let u = std::panic::catch_unwind(|| UtcDateTime::from_timespec(tt, ns).ok()).ok().flatten()?;
     Some(Fields { y: u.year(), mo: u.month(), d: u.month_day(), h: u.hour(), mi: u.minute(), s: u.second(), ns })
 }
 
@@ -355,7 +390,7 @@ pub fn interesting_fields(r: &mut Rng, z: &ZoneSpec) -> Fields {
     }
     if let Some(RuleSpec::Alt { start, end, start_time, end_time, std_off, .. }) = &z.rule {
         // near the rule's change days in some year after the last transition
-        let base_year = z.trans.last().and_then(|(t, _)| UtcDateTime::from_timespec(*t, 0).ok()).map(|u| u.year()).unwrap_or(2000);
+        let base_year = z.trans.last().and_then(|(t, _)| std::panic::catch_unwind(|| UtcDateTime::from_timespec(*t, 0).ok()).ok().flatten()).map(|u| u.year()).unwrap_or(2000);
         let y = base_year.saturating_add(r.range(0, 3) as i32);
         let (d, tm) = if r.chance(1, 2) { (start, start_time) } else { (end, end_time) };
         let (mo, day) = match d {
@@ -841,13 +876,13 @@ pub fn gen_c07(seed: u64) -> Scenario {
             args[1] = args[0] + 3600;
             args[2] = 2;
             args[3] = 1 + r.below(12) as i64;
-            args[4] = 1 + r.below(5) as i64;
-            args[5] = r.below(7) as i64;
+            args[4] = if r.chance(1, 6) { [0i64, 6][r.usize(2)] } else { 1 + r.below(5) as i64 };
+            args[5] = if r.chance(1, 8) { 7 } else { r.below(7) as i64 };
             args[6] = r.range(-604799, 604799);
             args[7] = 2;
-            args[8] = 1 + r.below(12) as i64;
-            args[9] = 1 + r.below(5) as i64;
-            args[10] = r.below(7) as i64;
+            args[8] = if r.chance(1, 2) { args[3] } else { 1 + r.below(12) as i64 };
+            args[9] = if r.chance(1, 6) { [0i64, 6][r.usize(2)] } else { 1 + r.below(5) as i64 };
+            args[10] = if r.chance(1, 8) { 7 } else { r.below(7) as i64 };
             args[11] = r.range(-604799, 604799);
         }
         if kind == "tzref" && r.chance(3, 4) {
@@ -900,7 +935,7 @@ fn gen_content_fault(r: &mut Rng, ncont: usize) -> Fault {
 }
 
 fn tz_string_bytes(r: &mut Rng) -> Vec<u8> {
-    let parts: &[&str] = &["EST", "5", "EDT", ",", "M3.2.0", "M11.1.0", "/2", "/-1", "/25", "/167:59:59", "J1", "J365", "J366", "0", "365", "366", "<+03>", "<", ">", "-", "+", ":", "24:59:59", "25", "M13.1.0", "M1.6.0", "M1.1.7", "99999999999999999999", " ", "\0", "é", "UTC0", ",M3.5.0,M10.5.0/3", "4:30"];
+    let parts: &[&str] = &["EST", "5", "EDT", ",", "M3.2.0", "M11.1.0", "/2", "/-1", "/25", "/167:59:59", "J1", "J365", "J366", "0", "365", "366", "<+03>", "<", ">", "-", "+", ":", "24:59:59", "25", "M13.1.0", "M1.6.0", "M1.1.7", "M3.0.0", "M3.2.1", "M0.1.0", ",M3.0.0,M3.2.1", "AAA0BBB", "99999999999999999999", " ", "\0", "é", "UTC0", ",M3.5.0,M10.5.0/3", "4:30"];
     let mut s = Vec::new();
     for _ in 0..1 + r.usize(8) {
         s.extend_from_slice(r.pick(parts).as_bytes());
